@@ -176,6 +176,10 @@ def _variants(kind, es, ns, d1, d2, w, perm, seed):
         return buf[1::2]
     out["strided"] = ((strided(E), strided(N)), each(strided, D), each(strided, W))
     out["series"] = ((pd.Series(E), pd.Series(N)), each(pd.Series, D), each(pd.Series, W))
+    # columns of a DataFrame that was shuffled/sorted without reset_index: same element sequence, index labels are a permutation
+    pidx = [(5 * i + 2) % n for i in range(n)] if n % 5 else list(range(n - 1, -1, -1))
+    ps = lambda x: pd.Series(np.asarray(x).copy(), index=pidx)  # noqa: E731
+    out["series-permuted-index"] = ((ps(E), ps(N)), each(ps, D), each(ps, W))
     out["extra-coords"] = ((E, N, np.arange(n) * 7.0 - 3.0), D, W)
     out["int-coords"] = ((E.astype("int64"), N.astype("int64")), D, W)
     out["int-data"] = ((E, N), each(lambda x: x.astype("int64"), D), W)
